@@ -109,6 +109,10 @@ var c05Downgrades = []string{
 	"strip-mac", "strip-mac-flip", "swap-tag", "drop-iv", "short-iv", "long-iv", "empty-iv", "iv-text",
 	"alter-alg", "alg-to-other-map", "drop-alg", "empty-ct", "trunc-ct", "one-byte-ct", "null-ct", "ext-ct",
 	"plaintext", "other-session", "mac-flip", "mac-trunc", "mac-alg", "wrap-in-mac", "replay-earlier",
+	// an AEAD message relabelled as the unauthenticated counter mode of the same
+	// key size: GCM encrypts with CTR starting at nonce||00000002, so dropping
+	// the tag and announcing AES-CTR with that IV decrypts under the same key
+	"gcm-as-ctr", "gcm-as-ctr-flip", "gcm-as-ctr-protected",
 }
 
 type c05 struct {
@@ -355,6 +359,38 @@ func c05Downgrade(kind string, body []byte, spec CipherSpec, plain []byte, other
 					enc.Kids[0].Emb, enc.Kids[0].Bytes = nil, nil
 				}
 			}
+		}
+		return root.Encode(nil), true
+	case "gcm-as-ctr", "gcm-as-ctr-flip", "gcm-as-ctr-protected":
+		if !spec.AEAD || mac != nil || ivNode == nil || len(ivNode.Bytes) != 12 || len(ct.Bytes) < 17 {
+			return nil, false
+		}
+		ctrAlg := map[int]int64{16: -65534, 24: -65533, 32: -65532}[spec.KeyLen] // A128CTR, A192CTR, A256CTR (RFC 9459)
+		algNode := &CNode{Major: 1, Arg: uint64(-1 - ctrAlg)}
+		key1 := &CNode{Major: 0, Arg: 1}
+		iv := append(append([]byte(nil), ivNode.Bytes...), 0, 0, 0, 2)
+		body := append([]byte(nil), ct.Bytes[:len(ct.Bytes)-16]...)
+		if kind == "gcm-as-ctr-flip" {
+			body[len(body)/2] ^= 0x01
+		}
+		setBytes(ct, body)
+		setBytes(ivNode, iv)
+		// remove alg wherever it is, then announce the counter mode
+		for _, m := range []*CNode{enc.Kids[0].Emb, unprot} {
+			if _, idx := algIn(m); idx >= 0 {
+				m.Kids = append(m.Kids[:idx:idx], m.Kids[idx+2:]...)
+			}
+		}
+		if kind == "gcm-as-ctr-protected" {
+			if enc.Kids[0].Emb == nil {
+				enc.Kids[0].Emb = &CNode{Major: 5}
+			}
+			enc.Kids[0].Emb.Kids = append(enc.Kids[0].Emb.Kids, key1, algNode)
+		} else {
+			if enc.Kids[0].Emb != nil && len(enc.Kids[0].Emb.Kids) == 0 {
+				enc.Kids[0].Emb, enc.Kids[0].Bytes = nil, nil
+			}
+			unprot.Kids = append(unprot.Kids, key1, algNode)
 		}
 		return root.Encode(nil), true
 	case "empty-ct":
